@@ -40,7 +40,8 @@ def readToks (s : String) : List Tok :=
 def ctorTag : Expr → String
   | .ident _ => "ident" | .int .. => "int" | .fix .. => "fix" | .bool _ => "bool" | .nil => "nil" | .void => "void"
   | .unary .. => "unary" | .ref _ => "ref" | .force _ => "force" | .binary .. => "binary" | .cast .. => "cast"
-  | .cond .. => "cond" | .member .. => "member" | .index .. => "index"
+  | .cond .. => "cond" | .member .. => "member" | .index .. => "index" | .invoke .. => "invoke"
+  | .argsNil => "args" | .argsCons .. => "args"
 
 def isAtom : Expr → Bool
   | .ident _ | .int .. | .fix .. | .bool _ | .nil | .void => true
